@@ -301,8 +301,8 @@ Section Rules.
     | GNone => true
     | GLocalIncDec => match znth slots (iA f) with Some v => is_num_tag (vt v) | None => true end
     | GNeedOperand => nonempty ops
-    | GIntKey => in_range I32 (iB f)
-    | GIntKeyOperand => nonempty ops && in_range I32 (iB f)
+    | GIntKey => true
+    | GIntKeyOperand => nonempty ops
     | GCallAttr => small16 (iA (win w 2)) && small16 (iB (win w 2))
     | GIncAdd =>
         match ops with
@@ -460,14 +460,14 @@ Section Rules.
     Proof. step_unfold. Qed.
     Lemma step1_FastGetInt : icode i = c_FastGetInt -> step1 codes pc i slots ops s =
       match znth slots (iA i) with
-      | Some r => match obj_get ext_get s r (fn_Int (iB i)) (ipos i) with
+      | Some r => match obj_get ext_get s r (fn_newUntypedInt (iB i)) (ipos i) with
                   | inl rv => slift rv s (fun v => SNext slots (v :: ops) s)
                   | inr w => SUnmod w end
       | None => SStuck "local slot" end.
     Proof. step_unfold. Qed.
     Lemma step1_FastSetInt : icode i = c_FastSetInt -> step1 codes pc i slots ops s =
       match ops, znth slots (iA i) with
-      | v :: rest, Some r => match obj_set ext_set s r (fn_Int (iB i)) v with
+      | v :: rest, Some r => match obj_set ext_set s r (fn_newUntypedInt (iB i)) v with
                              | inl (Ok s') => SNext slots rest s'
                              | inl _ => SFail "runtime error" s
                              | inr w => SUnmod w end
@@ -851,7 +851,7 @@ Proof.
   destruct (window_of_suffix r Hin code Hm) as (Hl & Hmw & Hf).
   split; [exact Hin|]. split; [exact Hl|]. split; [exact Hmw|]. split; [exact Hf|].
   intros codes pc pc' slots ops s G. rewrite <- Hf.
-  exact (c02_rule_sound grow ext_get ext_set ext_len ext_getattr ext_setattr Hg Hs r Hin _ Hl Hmw codes pc pc' slots ops s G).
+  exact (c02_rule_sound grow ext_get ext_set ext_len ext_getattr ext_setattr r Hin _ Hl Hmw codes pc pc' slots ops s G).
 Qed.
 
 Print Assumptions c02_rule_sound.
